@@ -27,3 +27,7 @@ package index
 //@ func (*InsertionIndex).Get
 //@   trusted
 //@   ensures def: (err == nil) == byDg(ii, digestof(mhof(c)))
+
+//@ func (*InsertionIndex).Load
+//@   call[LLRB.InsertNoReplace#0] assert keeps_duplicates [C03,C11]: true
+//@   loop[0] invariant no_error [C03]: true
